@@ -1113,13 +1113,13 @@ class Interp(AutoEvaluator):
                 sp = self._iter_spec(it.args[0])
                 if sp[0] == "unroll":
                     return ("unroll", list(reversed(sp[1])))
-                if isinstance(it.args[0], ast.Call) and dotted(it.args[0].func) in ("range", "np.arange"):
-                    return sp               # every index of the range once: the order of the passes is not modelled
-                raise Unsupported("reversed iteration over an array")
+                # every element once: the order of the passes is not modelled, only the pairing inside zip / enumerate (4th item: walked backwards)
+                return ("sym", sp[1], sp[2], not (len(sp) > 3 and sp[3]))
             if nm == "enumerate" and len(it.args) == 1 and not it.keywords:
                 sp = self._iter_spec(it.args[0])
                 if sp[0] == "unroll":
                     return ("unroll", [(F.const(k), v) for k, v in enumerate(sp[1])])
+                sp = self._forwards(sp)
                 return ("sym", sp[1], lambda i, f=sp[2]: (i, f(i)))
             if nm == "zip" and it.args and not it.keywords:
                 sps = []
@@ -1134,11 +1134,22 @@ class Interp(AutoEvaluator):
                 if all(s[0] == "unroll" for s in sps):
                     return ("unroll", [tuple(x) for x in zip(*[s[1] for s in sps])])
                 if all(s[0] == "sym" for s in sps):
+                    back = {len(s_) > 3 and s_[3] for s_ in sps}
+                    if len(back) > 1:
+                        sps = [self._forwards(s_) for s_ in sps]            # some operands reversed, some not: pair by position
+                    back = len(back) == 1 and back.pop()
                     # zip stops with the shortest operand: one trip count when the lengths are the same value or were checked equal by a guard
                     dom = sps[0][1] if all(self.known_equal(s[1], sps[0][1]) for s in sps) else F.fn("min", *sorted((s[1] for s in sps), key=repr))
-                    return ("sym", dom, lambda i, fs=[s[2] for s in sps]: tuple(f(i) for f in fs))
+                    return ("sym", dom, lambda i, fs=[s[2] for s in sps]: tuple(f(i) for f in fs), bool(back))
                 raise Unsupported("zip of sequences of different kinds")
         return self._spec_of_value(self._ev(it), it)
+
+    @staticmethod
+    def _forwards(sp):
+        """a symbolic iteration walked backwards as a forward one: element i is item n - 1 - i"""
+        if sp[0] == "sym" and len(sp) > 3 and sp[3]:
+            return ("sym", sp[1], lambda i, f=sp[2], n=sp[1]: f(n - F.const(1) - i), False)
+        return sp
 
     def _spec_of_value(self, v, it):
         seq = self._as_seq(v)
@@ -1856,6 +1867,10 @@ class Interp(AutoEvaluator):
         if isinstance(a, tuple) and isinstance(b, tuple) and len(a) == len(b):
             return tuple(self._merge_val(t, x, y) for x, y in zip(a, b))
         if a is None or b is None:
+            x = b if a is None else a
+            if is_rat(x) and is_rat(t):
+                # bound on one arm only: correct code reads it only where it is bound (`if cached: tf = ...` ... `if found: return tf`)
+                return F.fn("ite", t, x, F.sym("?unbound")) if a is not None else F.fn("ite", t, F.sym("?unbound"), x)
             return Unknown("bound on one arm of an undecided test only")
         return self._ite(t, a, b)
 
@@ -1864,8 +1879,6 @@ class Interp(AutoEvaluator):
         for k in set(env1) | set(env2):
             a, b = env1.get(k, env0.get(k)), env2.get(k, env0.get(k))
             out[k] = self._merge_val(t, a, b)
-            if is_unknown(out[k]) and (a is None or b is None):
-                out[k] = Unknown(f"{k} bound on one arm of an undecided test only")
         return out
 
     def _arm(self, stmts, env0, maybe):
